@@ -28,7 +28,7 @@ def listing(tokens):
 def check_doc(acc, headers, hist, pre=(), all_filters=False, mono=True):
     m = X.build(headers, hist, pre, close=True)
     text = m.text()
-    case = {'text': text, 'headers': headers, 'pre': list(pre)}
+    case = {'text': text, 'headers': headers, 'pre': list(pre), 'hist': hist}
     acc.count('evaluations')
     acc.state(digest(text))
     try:
@@ -166,44 +166,11 @@ def run(ctx):
 
 
 def replay(case):
-    """re-run on the recorded text: the model is rebuilt by re-walking is not possible from text alone, so compare with a model
-    reconstructed cell by cell with categories taken as 'open' (None) except comments"""
-    from ..model import Model
-    text = case['text']
-    lines = [l for l in text.split('\n') if l]
-    pre = []
-    while lines and lines[0].startswith('!!'):
-        pre.append(lines.pop(0))
-    m = Model(lines[0].split('\t'), pre)
-    for l in lines[1:]:
-        if l.startswith('!!'):
-            m.add_g(l)
-            continue
-        specs = []
-        for c in l.split('\t'):
-            if c.startswith('='):
-                out = ('==' if c.startswith('==') else '=') + c.lstrip('=').lstrip('0123456789')
-                specs.append(A.V(c, 'BARLINES', out))
-            elif c in ('*^', '*v', '*-'):
-                specs.append(A.V(c, 'SPINE_OPERATION'))
-            elif c in ('.', '*'):
-                specs.append(A.V(c, 'EMPTY'))
-            elif c.startswith('!'):
-                specs.append(A.V(c, 'FIELD_COMMENTS'))
-            else:
-                specs.append({'k': 'v', 'src': c, 'cat': None, 'out': c})
-        m.add(specs)
-    hist = [r if k == 'g' else [c.spec for c in r] for k, r in m.rows[m.header_row + 1:]]
-    hist = [('g', r) if isinstance(r, str) else r for r in hist]
-    # drop the closing terminator row (build() re-adds it) if the document is fully terminated
-    if m.width() == 0:
-        idx = max(i for i, r in enumerate(hist) if not isinstance(r, tuple))
-        hist = hist[:idx] + hist[idx + 1:]
     acc = Acc()
-    check_doc(acc, m.headers, hist, tuple(pre), all_filters=True, mono=False)
-    if any(t == text for t, _ in MONO):
-        d, _ = kp.loads(text)
-        expm = dict(MONO)[text]
-        if kp.is_monophonic(d) != expm:
-            acc.violation(Viol('monophony', 'differs-from-definition', case, expm, not expm))
+    if 'hist' not in case:
+        for text, expm in MONO:
+            if text == case['text'] and kp.is_monophonic(kp.loads(text)[0]) != expm:
+                acc.violation(Viol('monophony', 'differs-from-definition', case, expm, not expm))
+        return acc.viol
+    check_doc(acc, case['headers'], X.hist_from_json(case['hist']), tuple(case.get('pre', ())), all_filters=True)
     return acc.viol
